@@ -6,10 +6,11 @@
      fits its entry, CONTINUE is set on all but the last;
    - a symlink target of ANY length (any number of SL records and components, '.', '..', empty
      pieces, leading and trailing '/') is reassembled -- by an RRIP 4.1.3 reader -- to exactly the
-     target, PROVIDED no path piece starts with '.' other than "." and ".." (C08_symlink_roundtrip);
-     without that guard the claim is refuted (a cut slice spelling "." is recorded as the CURRENT
-     component) and with no continuation entry long targets are silently truncated: both witnesses
-     were reproduced on pycdlib and are known findings;
+     target (C08_symlink_roundtrip_all: unconditional).  The first faithful models REFUTED this twice (a cut
+     slice spelling "." was recorded as the CURRENT component; with no continuation entry planned the
+     last components of a many-component target went to a record that is never written); both witnesses
+     were reproduced on pycdlib, the placement model (RRPlace.v) gave the exact cause, fix bead951
+     repaired both, and the models follow the repaired code;
    - the record-level and the component-level CONTINUE flags obey the discipline a reader relies on;
    - continuation areas never overlap and stay inside their sector for every add/remove history;
    - link counts (Model/Nlink.v, hand model of the PX posix_file_links bookkeeping of
@@ -50,13 +51,22 @@ Theorem C08_symlink_roundtrip_partial : forall r1 r2 target, 3 <= r2 -> sl_ok r1
   sl_reassemble (sl_records r1 r2 (sl_components target)) = target.
 Proof. exact sl_roundtrip_partial. Qed.
 
-Theorem C08_symlink_roundtrip_refuted : exists r1 target, target <> [] /\ sl_ok r1 250 target = false /\
-  sl_reassemble (sl_records r1 250 (sl_components target)) <> target.
-Proof. exact sl_roundtrip_refuted. Qed.
+Theorem C08_symlink_roundtrip_all : forall r1 r2 target, 3 <= r2 -> target <> [] ->
+  sl_reassemble (sl_records r1 r2 (sl_components target)) = target.
+Proof. exact sl_roundtrip_all. Qed.
 
-Theorem C08_symlink_without_ce_refuted : exists r1 target, no_dot_names target = true /\ sl_accepts_no_ce r1 target = true /\
-  sl_reassemble (sl_written false (sl_records r1 250 (sl_components target))) <> target.
-Proof. exact sl_no_ce_refuted. Qed.
+Theorem C08_symlink_records_fit_their_rooms : forall r1 r2 cs, 3 <= r2 ->
+  exists r0 rs, sl_records r1 r2 cs = r0 :: rs /\ comps_size (snd r0) <= Z.max 0 r1 /\
+                Forall (fun r => comps_size (snd r) <= r2) rs.
+Proof. exact sl_rooms. Qed.
+
+Theorem C08_symlink_without_ce_single_record : forall r1 r2 target, target <> [] -> sl_accepts_no_ce r1 target = true ->
+  sl_records r1 r2 (sl_components target) = [(false, sl_components target)].
+Proof. exact sl_no_ce_single_record. Qed.
+
+Theorem C08_symlink_without_ce_roundtrip : forall r1 r2 target, target <> [] -> sl_accepts_no_ce r1 target = true ->
+  sl_reassemble (sl_written false (sl_records r1 r2 (sl_components target))) = target.
+Proof. exact sl_no_ce_roundtrip. Qed.
 
 Theorem C08_record_continue_flags : forall r1 r2 cs, all_but_last true false (map fst (sl_records r1 r2 cs)).
 Proof. exact sl_record_flags. Qed.
@@ -111,13 +121,22 @@ Theorem C08_symlink_components_name_target : forall t, RREntries.sl_name (RREntr
 Proof. exact RRSLProofs.sl_name_factory. Qed.
 
 (* the two known findings about symlink targets, as theorems about the faithful model *)
-Theorem C08_continued_dot_slice_refuted :
+Theorem C08_cut_slices_read_back : forall fl pieces rest,
+  Codec.u8_ok fl = true ->
+  Forall (fun sl => sl <> [] /\ Forall (fun q => ~ In 47 q) sl) pieces ->
+  let cs := flat_map RRSLProofs.slice_comps pieces in
+  RREntries.sl_current_length (RREntries.mk_sl fl cs) <= 255 ->
+  exists b s', RREntries.rec_sl (RREntries.mk_sl fl cs) = Some b /\ RREntries.parse_sl (b ++ rest) = Some s' /\
+    RREntries.sl_flags s' = fl /\
+    RREntries.sl_name (RREntries.sl_comps s') = LongNames.join_slash (map (@concat Z) pieces).
+Proof. exact RRSLProofs.sl_slices_roundtrip. Qed.
+
+Theorem C08_continued_dot_slice_reads_back :
   exists comps b s',
     comps = RRSLProofs.slice_comps [[46]; [98]] /\ RREntries.sl_name comps = [46; 98] /\
-    RREntries.rec_sl (RREntries.mk_sl 0 comps) = Some b /\ RREntries.parse_sl b = Some s' /\
-    RREntries.sl_name (RREntries.sl_comps s') = [46; 47; 98] /\
-    RREntries.sl_name (RREntries.sl_comps s') <> RREntries.sl_name comps.
-Proof. exact RRSLProofs.sl_continued_dot_refuted. Qed.
+    RREntries.rec_sl (RREntries.mk_sl 0 comps) = Some b /\ b = [83; 76; 11; 1; 0; 1; 1; 46; 0; 1; 98] /\
+    RREntries.parse_sl b = Some s' /\ RREntries.sl_name (RREntries.sl_comps s') = [46; 98].
+Proof. exact RRSLProofs.sl_continued_dot_roundtrip. Qed.
 
 Theorem C08_root_only_target_refuted :
   RREntries.parse_sl [83; 76; 7; 1; 0; 8; 0] = Some (RREntries.mk_sl 0 [RREntries.mk_comp 8 0 []]) /\
@@ -158,12 +177,17 @@ Theorem C08_placed_name_reads_back : forall i r,
   place i = Some r -> 0 <= p_dr_len i -> read_name r = p_name i.
 Proof. exact RRPlaceProofs2.place_reads_name. Qed.
 
-Theorem C08_placed_target_reads_back_partial : forall i r t,
-  place i = Some r -> 0 <= p_dr_len i ->
-  p_target i = Some t -> t <> [] ->
-  is_some (ce_record (pl_dr r)) = true \/ sl_records (pl_ce r) = [] ->
-  LongNames.no_dot_names t = true -> read_target r = t.
-Proof. exact RRPlaceProofs2.place_complete_sl_partial. Qed.
+Theorem C08_placed_target_reads_back : forall i r t,
+  place i = Some r -> 0 <= p_dr_len i -> p_target i = Some t -> t <> [] -> read_target r = t.
+Proof. exact RRPlaceProofs2.place_reads_target. Qed.
+
+Theorem C08_ce_entry_iff_continuation_part : forall i r, place i = Some r -> 0 <= p_dr_len i ->
+  (ce_record (pl_dr r) = None <-> entries_list (pl_ce r) = []).
+Proof. exact RRPlaceProofs2.place_ce_iff. Qed.
+
+Theorem C08_first_fit_closed : forall i,
+  first_fit i = true <-> before_sl i + sl_uncut i + after_sl i <= ALLOWED_DR_SIZE.
+Proof. exact RRPlaceProofs2.first_fit_closed. Qed.
 
 Theorem C08_no_continuation_iff_first_fit : forall i r,
   place i = Some r -> 0 <= p_dr_len i ->
@@ -175,14 +199,14 @@ Theorem C08_placement_total : forall i,
   p_dr_len i + len_ce <= ALLOWED_DR_SIZE -> exists r, place i = Some r.
 Proof. exact RRPlaceProofs2.place_total. Qed.
 
-Theorem C08_placed_target_truncated_refuted :
-  exists i r t, place i = Some r /\ p_target i = Some t /\
-  LongNames.no_dot_names t = true /\ read_target r = firstn 12 t /\ read_target r <> t.
-Proof. exact RRPlaceCases.place_complete_sl_trunc_refuted. Qed.
+Theorem C08_former_truncation_witness_reads_back : exists r, place w_trunc = Some r /\ input_ok w_trunc r /\
+  is_some (ce_record (pl_dr r)) = true /\ entries_list (pl_ce r) <> [] /\ first_fit w_trunc = false /\
+  read_target r = repeat 47 13%nat /\ read_name r = p_name w_trunc.
+Proof. exact RRPlaceCases.w_trunc_reads_back. Qed.
 
-Theorem C08_placed_target_dot_cut_refuted :
-  exists i r t, place i = Some r /\ input_ok i r /\ p_target i = Some t /\
-  is_some (ce_record (pl_dr r)) = true /\ LongNames.no_dot_names t = false /\
-  read_target r = [47; 46; 47; 98] /\ read_target r <> t /\ read_name r = p_name i.
-Proof. exact RRPlaceCases.place_complete_sl_dot_refuted. Qed.
+Theorem C08_former_dot_cut_witness_reads_back : exists r, place w_dot = Some r /\ input_ok w_dot r /\
+  is_some (ce_record (pl_dr r)) = true /\ read_target r = [47; 46; 98] /\ read_name r = [110] /\
+  map sl_view (sl_of (visible r)) =
+    [(true, [LongNames.CRoot; LongNames.CName true [46]]); (false, [LongNames.CName false [98]])].
+Proof. exact RRPlaceCases.w_dot_reads_back. Qed.
 End RRPlaceStatements.
